@@ -270,12 +270,18 @@ func dischargeAll(obls []*Obligation, dir string, timeoutS int, cross bool, work
 	if len(retry) > 0 && len(retry) <= 64 {
 		var wg2 sync.WaitGroup
 		sem := make(chan struct{}, 4)
+		// the whole retry pass is capped: on a tree where many proofs have stopped working the
+		// check must come back "undecided" in bounded time, not hours later
+		retryStart := time.Now()
 		for _, i := range retry {
 			wg2.Add(1)
 			go func(i int) {
 				defer wg2.Done()
 				sem <- struct{}{}
 				defer func() { <-sem }()
+				if time.Since(retryStart) > 300*time.Second {
+					return
+				}
 				t := timeoutS * 3
 				if obls[i].TimeoutS > timeoutS {
 					t = obls[i].TimeoutS * 3
